@@ -334,6 +334,27 @@ class Ctx:
         }
 
 
+# ----------------------------------------------------------------------------------------
+# heartbeat: lets the parent process see a case that never comes back (work done inside C
+# code - a regular expression, a huge allocation - produces no LINE events and cannot be
+# interrupted from inside the interpreter)
+# ----------------------------------------------------------------------------------------
+_HB = {"fd": None}
+
+
+def heartbeat(subject=None, case=None):
+    """heartbeat(subject, case) before a case, heartbeat() after it.  No-op unless the parent
+    asked for it (VERIF_HEARTBEAT=<file>)."""
+    path = os.environ.get("VERIF_HEARTBEAT")
+    if not path:
+        return
+    if _HB["fd"] is None:
+        _HB["fd"] = os.open(path, os.O_WRONLY | os.O_CREAT, 0o600)
+    data = b"-" if subject is None else json.dumps({"subject": subject, "case": enc(case)}).encode()
+    os.pwrite(_HB["fd"], data, 0)
+    os.ftruncate(_HB["fd"], len(data))
+
+
 def replay_case(ctx, subject, case):
     """Re-execute one saved case through the property module; returns the Violation or None."""
     try:
